@@ -110,7 +110,7 @@ inductive Code
   | cmp (sp : Sp) (v : VExpr) (op : CmpOp) (e : UExpr) (push : Push)
   | unitVariant (sp : Sp) (v : VExpr) (path : UPath) (push : Push)
   | enumTuple (sp : Sp) (v : VExpr) (path : UPath) (binders : List Binder) (body : Codes) (push : Push)
-  | structNamed (sp : Sp) (v : VExpr) (path : UPath) (fields : List FieldName) (rest : Bool)
+  | structNamed (sp : Sp) (v : VExpr) (path : UPath) (fields : List FieldName) (fsps : List Sp) (rest : Bool)
       (body : Codes) (push : Push)
   | tuple (v : VExpr) (binders : List Binder) (body : Codes)
   | range (sp : Sp) (v : VExpr) (e : UExpr) (push : Push)
@@ -148,6 +148,34 @@ def dedupNames : List FieldName → List FieldName → List FieldName
   | f :: fs, seen =>
     if seen.any (FieldName.sameName f) then dedupNames fs seen else f :: dedupNames fs (f :: seen)
 
+/-- The span recorded with one field operation. -/
+def FieldOp.span : FieldOp → Sp
+  | .deref _ sp | .method _ sp _ | .await sp | .named _ sp | .unnamed _ sp | .index _ sp => sp
+
+/-- `FieldOperation::root_field_span`: the span of the operation `root_field_name` reads. -/
+def FieldOps.rootFieldSp (f : FieldOps) : Sp :=
+  match f.ops with
+  | [op] => op.span
+  | ops =>
+    match ops.find? (fun o => !o.isDeref) with
+    | some op => op.span
+    | none => Sp.callSite
+
+/-- The span of the field access each root field name was read from (parallel to `Items.rootNames`). -/
+def Items.rootSps : Items → List Sp
+  | .nil => []
+  | .cons ops _ _ tl =>
+    match ops.bind FieldOps.rootFieldName? with
+    | some _ => (match ops with | some o => o.rootFieldSp | none => Sp.callSite) :: tl.rootSps
+    | none => tl.rootSps
+
+/-- The spans that go with `dedupNames`: the span of the FIRST occurrence of every name (since the
+third index-literal fix in /repo the destructuring pattern stamps a tuple index with it). -/
+def dedupSps : List FieldName → List Sp → List FieldName → List Sp
+  | f :: fs, s :: ss, seen =>
+    if seen.any (FieldName.sameName f) then dedupSps fs ss seen else s :: dedupSps fs ss (f :: seen)
+  | _, _, _ => []
+
 /-- Value expression a field assertion tests, starting from the bound base
 (`expand_field_assertion`). -/
 def fieldValue (base : VExpr) (ops : FieldOps) : VExpr :=
@@ -166,19 +194,6 @@ def dbgPush (sp : Sp) (node : Nat) (v : VExpr) : Push := ⟨sp, node, .dbg v, .n
 def wildBase (v : VExpr) (rsp : Sp) : FieldName → Core
   | .ident i => .named (.paren v.pre v.core) Sp.callSite i
   | .index n => .unnamed (.paren v.pre v.core) Sp.callSite rsp n   -- since /repo 821460c the index literal carries the root access's span
-
-/-- The span recorded with one field operation. -/
-def FieldOp.span : FieldOp → Sp
-  | .deref _ sp | .method _ sp _ | .await sp | .named _ sp | .unnamed _ sp | .index _ sp => sp
-
-/-- `FieldOperation::root_field_span`: the span of the operation `root_field_name` reads. -/
-def FieldOps.rootFieldSp (f : FieldOps) : Sp :=
-  match f.ops with
-  | [op] => op.span
-  | ops =>
-    match ops.find? (fun o => !o.isDeref) with
-    | some op => op.span
-    | none => Sp.callSite
 
 mutual
 /-- `expand_pattern_assertion(value_expr, pattern)`. -/
@@ -201,7 +216,7 @@ def expandPat (v : VExpr) : Pat → Code
   | .like id e => .like e.sp v e (dbgPush e.sp id v)
   | .closure id e => .closure e.sp v e (dbgPush e.sp id v)
   | .struct id (some path) fields rest =>
-    .structNamed path.sp v path (dedupNames fields.rootNames []) rest (expandFields fields)
+    .structNamed path.sp v path (dedupNames fields.rootNames []) (dedupSps fields.rootNames fields.rootSps []) rest (expandFields fields)
       (dbgPush path.sp id v)
   | .struct _ none fields _ => .seq (expandWildFields v fields)
   | .map id _ entries rest =>
